@@ -279,11 +279,13 @@ def pHCase : P HCase := do
   let ct ← str
   let params ← list (do let t ← pTag; let kvs ← pKvs; pure ({ kind := t, kvs := kvs } : Src))
   let form ← pKvs
+  let mform ← opt pKvs
   let docs ← list pDocInfo
   let ops ← list pOp
   let tbl ← list pEntry
   pure { ty := ty, init := init, ops := ops, tbl := tbl,
-         http := { ctype := ct, params := params, form := { kind := .form, kvs := form }, docs := docs, bodyTags := bt } }
+         http := { ctype := ct, params := params, form := { kind := .form, kvs := form },
+                   mform := mform.map (fun kvs => { kind := .form, kvs := kvs }), docs := docs, bodyTags := bt } }
 
 def pBObs : P Spec.BObs := do
   let k ← tok
@@ -456,13 +458,24 @@ def lastStrict : List Op → Bool
   | .bind s :: rest => if rest.any (fun o => match o with | .bind _ => true | _ => false) then lastStrict rest else s
   | _ :: rest => lastStrict rest
 
+/-- a multipart body (bindForm's own test of the raw header) is bound through a MultipartGetter, which is a form getter
+    for scalars, pointers and slices but not for map notation / nested structs: such cases need the parsed form shipped,
+    a well-formed source and a type whose form-tagged fields are leaves of the top level -/
+def multipartOK (fs : List Fld) (h : Http) : Bool :=
+  !(hasPrefix h.ctype (B "multipart/form-data")) || !h.bodyTags || classifyCT h.ctype != .multipart ||
+  (match h.mform with
+   | some s => Spec.srcOK s
+   | none => false) &&
+  (Spec.nodesOf .form fs).isEmpty &&
+  (Spec.leavesOf .form fs).all (fun l => !l.nested && !isMapTy l.ty)
+
 def stepH (id : String) (inp obs : List String) : String :=
   match runP pHCase inp, runP pBObs obs with
   | some c, some o =>
     match c.ty, c.init with
     | .struct fs, .struct ivs =>
       if !(wts fs ivs && Spec.inGrammarFs fs && c.http.params.all Spec.srcOK && Spec.srcOK c.http.form && tblOK c.tbl &&
-           c.http.params.map (·.kind) == appSourceKinds) then
+           c.http.params.map (·.kind) == appSourceKinds && multipartOK fs c.http) then
         s!"{id} bad-case preconditions"
       else
         let P := lookupP c.tbl
